@@ -612,6 +612,135 @@ pub fn gen_mate_roots(per_class: usize, seed: u64, path: &str) {
     eprintln!("{:?} after {tries} tries", found.iter().map(|v| v.len()).collect::<Vec<_>>());
 }
 
+/// one-off corpus builder: `harness gen-epmates <per_class> <seed> <outfile>` — roots in which an en-passant capture
+/// mates, sorted by what the capture does to the lines of the board (the capturing pawn leaves a square, arrives on
+/// another, and a third one is vacated): the arrival shields the mover's own king on the file of the captured pawn from a
+/// rook or queen beyond; the vacated square opens a line of a mover's slider onto the king (discovered mate through the
+/// captured pawn's square); the departure opens one; the pawn itself gives the mate.  Each class with the capture as the
+/// only mating move and with other mates beside it.  Written to corpus/ep_mates.txt.
+pub fn gen_ep_mates(per_class: usize, seed: u64, path: &str) {
+    use chess_movegen::GameState;
+    let names = ["arrival-shields-own-king-on-the-capture-file", "line-through-the-vacated-square", "line-through-the-departure-square", "pawn-gives-the-mate"];
+    let mut found: Vec<Vec<String>> = vec![Vec::new(); names.len() * 2];
+    let mut rng = Rng::new(seed ^ 0xE9A7E);
+    let mut tries = 0u64;
+    while found.iter().any(|v| v.len() < per_class) && tries < 60_000_000 {
+        tries += 1;
+        let white = rng.chance(1, 2);
+        let up = |c: u8| if white { c.to_ascii_uppercase() } else { c };
+        let dn = |c: u8| if white { c } else { c.to_ascii_uppercase() };
+        let row = |r: usize| if white { r } else { 7 - r }; // rows from the mover's side
+        let mut sq = [b'.'; 64];
+        let f = rng.below(8) as usize;
+        let g = if f == 0 { 1 } else if f == 7 { 6 } else if rng.chance(1, 2) { f - 1 } else { f + 1 };
+        sq[row(4) * 8 + f] = dn(b'p');
+        sq[row(4) * 8 + g] = up(b'p');
+        let want = rng.below(4);
+        // own king
+        let ok = if want == 0 { row(rng.below(4) as usize) * 8 + f } else { rng.below(64) as usize };
+        if sq[ok] != b'.' || ok == row(5) * 8 + f || ok == row(6) * 8 + f {
+            continue;
+        }
+        sq[ok] = up(b'k');
+        if want == 0 {
+            let s = row(7) * 8 + f;
+            sq[s] = dn(*rng.pick(&b"rq"[..]));
+        }
+        // the king to be mated: on an edge most of the time, boxed in by its own men
+        let ek = if rng.chance(3, 4) { let e = rng.below(28); (if e < 8 { e } else if e < 16 { 56 + e - 8 } else if e < 22 { (e - 15) * 8 } else { (e - 21) * 8 + 7 }) as usize } else { rng.below(64) as usize };
+        if sq[ek] != b'.' || ek == row(5) * 8 + f || ek == row(6) * 8 + f {
+            continue;
+        }
+        sq[ek] = dn(b'k');
+        for _ in 0..rng.below(5) {
+            let d = [1i32, -1, 8, -8, 7, -7, 9, -9][rng.below(8) as usize];
+            let i = (ek as i32 + d).clamp(0, 63) as usize;
+            let c = dn(*rng.pick(&b"pppnbr"[..]));
+            if sq[i] == b'.' && i != row(5) * 8 + f && i != row(6) * 8 + f && !((c == b'P' || c == b'p') && (i / 8 == 0 || i / 8 == 7)) {
+                sq[i] = c;
+            }
+        }
+        for _ in 0..(1 + rng.below(5)) {
+            let c = up(*rng.pick(&b"qrrbbnnp"[..]));
+            let i = rng.below(64) as usize;
+            if sq[i] == b'.' && i != row(5) * 8 + f && i != row(6) * 8 + f && !((c == b'P' || c == b'p') && (i / 8 == 0 || i / 8 == 7)) {
+                sq[i] = c;
+            }
+        }
+        let fen = fen_of(&sq, white, 0, Some(f as u8), 0, 1 + rng.below(30) as u32);
+        let Ok(b) = chess_movegen::fen::parse_fen(fen.as_bytes()) else { continue };
+        let src = row(4) * 8 + g;
+        let dst = row(5) * 8 + f;
+        let Some(ep) = b.legals().find(|m| m.source.to_u8() as usize == src && m.dest.to_u8() as usize == dst) else { continue };
+        let Some(nb) = b.move_new(ep) else { continue };
+        if nb.state() != GameState::CheckMate {
+            continue;
+        }
+        let others = b.legals().filter(|&m| m != ep && b.move_new(m).map(|x| x.state() == GameState::CheckMate).unwrap_or(false)).count();
+        let nv = view(&nb);
+        // which line does the check run along?
+        let vac = row(4) * 8 + f;
+        let between = |a: usize, c: usize, x: usize| -> bool {
+            // is x strictly between a and c on a common line?
+            let (af, ar, cf, cr, xf, xr) = ((a % 8) as i32, (a / 8) as i32, (c % 8) as i32, (c / 8) as i32, (x % 8) as i32, (x / 8) as i32);
+            let (df, dr) = ((cf - af).signum(), (cr - ar).signum());
+            if !((af == cf) || (ar == cr) || ((cf - af).abs() == (cr - ar).abs())) {
+                return false;
+            }
+            let (mut pf, mut pr) = (af + df, ar + dr);
+            while (pf, pr) != (cf, cr) {
+                if (pf, pr) == (xf, xr) {
+                    return true;
+                }
+                pf += df;
+                pr += dr;
+            }
+            false
+        };
+        let mut cls: Vec<usize> = Vec::new();
+        let own_file_shield = ok % 8 == f && (0..64).any(|i| i % 8 == f && matches!(sq[i].to_ascii_lowercase(), b'r' | b'q') && sq[i].is_ascii_uppercase() != white && between(ok, i, dst) && between(ok, i, vac)
+            && (0..64).all(|x| !between(ok, i, x) || x == vac || x == dst || sq[x] == b'.'));
+        if own_file_shield {
+            cls.push(0);
+        }
+        for c in 0..64usize {
+            if nv.checkers & (1u64 << c) != 0 {
+                if c == dst {
+                    cls.push(3);
+                } else if between(c, ek, vac) {
+                    cls.push(1);
+                } else if between(c, ek, src) {
+                    cls.push(2);
+                }
+            }
+        }
+        let fen_b = fen_of_view(&view(&b));
+        for c in cls {
+            let slot = c * 2 + if others == 0 { 0 } else { 1 };
+            if found[slot].len() < per_class && !found[slot].contains(&fen_b) {
+                found[slot].push(fen_b.clone());
+            }
+        }
+    }
+    let mut text = String::from("# roots in which an en-passant capture mates (found by `harness gen-epmates`, see harness/src/engine.rs)\n");
+    for (i, v) in found.iter().enumerate() {
+        text.push_str(&format!("# {} / {} ({})\n", names[i / 2], if i % 2 == 0 { "the only mate" } else { "other mates beside it" }, v.len()));
+        for l in v {
+            text.push_str(l);
+            text.push('\n');
+        }
+    }
+    std::fs::write(path, text).unwrap();
+    eprintln!("{:?} after {tries} tries", found.iter().map(|v| v.len()).collect::<Vec<_>>());
+}
+
+pub fn load_ep_mates() -> Vec<String> {
+    let path = concat!(env!("CARGO_MANIFEST_DIR"), "/../corpus/ep_mates.txt");
+    std::fs::read_to_string(path)
+        .map(|s| s.lines().map(|l| l.trim().to_string()).filter(|l| !l.is_empty() && !l.starts_with('#')).collect())
+        .unwrap_or_default()
+}
+
 pub fn load_mate_roots() -> Vec<String> {
     let path = concat!(env!("CARGO_MANIFEST_DIR"), "/../corpus/mate_roots.txt");
     std::fs::read_to_string(path)
@@ -704,6 +833,12 @@ pub fn c12(out: &mut Out, thorough: bool) {
     for f in load_mate_roots() {
         if let Some(b) = crate::common::guard(|| chess_movegen::fen::parse_fen(f.as_bytes()).ok()).flatten() {
             ps.push(Tagged { board: b, tag: "rare-mate-in-one" });
+        }
+    }
+    // roots in which an en-passant capture mates, by the line the mate runs along (fixed corpus)
+    for f in load_ep_mates() {
+        if let Some(b) = crate::common::guard(|| chess_movegen::fen::parse_fen(f.as_bytes()).ok()).flatten() {
+            ps.push(Tagged { board: b, tag: "en-passant-mate" });
         }
     }
     for t in ps.iter() {
@@ -826,6 +961,97 @@ pub fn c13(out: &mut Out, thorough: bool) {
         }
         // the facts about the mirrored board the symmetry argument rests on
         out.record("mirror-facts", true, format!("mirrorchk {p}"), "ok".into());
+    }
+}
+
+// ------------------------------------------------------------------------------------------ C11 through the plugin
+
+/// The search as the referee and the plugin's host consume it: the position reaches the bot as `set_board` plus a
+/// history of `make_move` calls (each move crossing the stable interface), then `evaluate` is asked.  The move it answers
+/// must be legal in the position the HOST reached (judged by the rules), whatever the history held — in particular each of
+/// the four promotion choices, after which the promoted piece may be the one giving check.
+pub fn bot11(out: &mut Out, thorough: bool, lib: &str) {
+    use chess_api::ChessApiRef;
+    let api = match ChessApiRef::load_from_file(std::path::Path::new(lib)) {
+        Ok(a) => a,
+        Err(e) => {
+            out.record("load", true, "expect loaded".into(), format!("load-failed:{e}").replace(' ', "_").chars().take(200).collect());
+            return;
+        }
+    };
+    let mut rng = Rng::new(out.seed ^ 0xB0711);
+    use chess_bitboard::PromotionPiece as PP;
+    let n = if thorough { 1500 } else { 120 };
+    let mut made = 0;
+    let mut tries = 0;
+    while made < n && tries < n * 50 {
+        tries += 1;
+        // the side to move has a pawn on its seventh rank (push or capture available), the other side a king the new
+        // piece may check and some men of its own (among them a pawn on ITS seventh rank, so that it has tempting answers)
+        let white = rng.chance(1, 2);
+        let up = |c: u8| if white { c.to_ascii_uppercase() } else { c };
+        let dn = |c: u8| if white { c } else { c.to_ascii_uppercase() };
+        let mut sq = [b'.'; 64];
+        let f = rng.below(8) as usize;
+        let (r7, r8, r2) = if white { (6usize, 7usize, 1usize) } else { (1, 0, 6) };
+        sq[r7 * 8 + f] = up(b'p');
+        if rng.chance(1, 2) {
+            let g = if f == 0 { 1 } else if f == 7 { 6 } else if rng.chance(1, 2) { f - 1 } else { f + 1 };
+            sq[r8 * 8 + g] = dn(*rng.pick(&b"nbrq"[..]));
+            if rng.chance(1, 2) {
+                sq[r8 * 8 + f] = dn(*rng.pick(&b"nbr"[..]));
+            }
+        }
+        for c in [up(b'k'), dn(b'k')] {
+            loop {
+                let s = rng.below(64) as usize;
+                if sq[s] == b'.' {
+                    sq[s] = c;
+                    break;
+                }
+            }
+        }
+        let g2 = rng.below(8) as usize;
+        if sq[r2 * 8 + g2] == b'.' {
+            sq[r2 * 8 + g2] = dn(b'p');
+        }
+        for _ in 0..rng.below(4) {
+            let s = rng.below(64) as usize;
+            if sq[s] == b'.' && s / 8 != 0 && s / 8 != 7 {
+                sq[s] = if rng.chance(1, 2) { dn(*rng.pick(&b"pnbrq"[..])) } else { up(*rng.pick(&b"pnbr"[..])) };
+            }
+        }
+        let Some(b0) = crate::common::guard(|| chess_movegen::fen::parse_fen(fen_of(&sq, white, 0, None, 0, 1).as_bytes()).ok()).flatten() else { continue };
+        let promos: Vec<ChessMove> = b0.legals().filter(|m| m.piece.is_some() && m.source.to_u8() as usize == r7 * 8 + f).collect();
+        if promos.is_empty() {
+            continue;
+        }
+        made += 1;
+        let dest = rng.pick(&promos).dest;
+        for pp in [PP::Knight, PP::Bishop, PP::Rook, PP::Queen] {
+            let mv = ChessMove { source: chess_bitboard::Pos::from_u8((r7 * 8 + f) as u8).unwrap(), dest, piece: Some(pp) };
+            let Some(host) = b0.move_new(mv) else { continue };
+            let mut eng = api.new_engine();
+            let mut toks: Vec<String> = Vec::new();
+            eng.set_board(b0);
+            toks.push(format!("set:{}", pos64(&view(&b0))));
+            let res = eng.make_move(mv);
+            let s = if res.is_valid { if res.is_three_fold_draw { "valid+3fold" } else { "valid" } } else { "invalid" };
+            toks.push(format!("mv:{}={s}", mv_str(mv)));
+            toks.push(format!("board={}", pos64(&view(&eng.board()))));
+            let hp = pos64(&view(&host));
+            for k in [2u64, 70, 400] {
+                let t = CountingTimeout { k, polls: Cell::new(0) };
+                let (m, score) = eng.evaluate(&t);
+                toks.push(format!("eval:{k}:0={},{}", match m { Some(m) => mv_str(m), None => "none".into() }, show_score(score)));
+                // (whether an answer is due — the first pass finished — is judged on the model's side of the `bot` line)
+                if let Some(m) = m {
+                    out.record("answer-legal-in-the-host-position", true, format!("pos islegal {hp} {}", mv_str(m)), "true".into());
+                }
+            }
+            let line_s = toks.join(" ");
+            out.record("promotion-in-the-history", true, format!("bot {line_s}"), line_s.clone());
+        }
     }
 }
 
@@ -965,6 +1191,33 @@ pub fn c15(out: &mut Out, thorough: bool, lib: &str) {
             }
             let line_s = toks.join(" ");
             out.record("rare-line-through-the-plugin", true, format!("bot {line_s}"), line_s.clone());
+        }
+    }
+    // en passant through the plugin with the marker on every file and own pawns all along the capture rank: only the
+    // neighbours may capture (positions built from data; both colours)
+    for f in 0..8usize {
+        for white in [true, false] {
+            let mut sq = [b'.'; 64];
+            sq[6] = b'K';
+            sq[62] = b'k';
+            let (pr, own, opp) = if white { (4usize, b'P', b'p') } else { (3usize, b'p', b'P') };
+            for g in 0..8usize {
+                sq[pr * 8 + g] = if g == f { opp } else { own };
+            }
+            let fen = fen_of(&sq, white, 0, Some(f as u8), 0, 1);
+            let Some(b0) = crate::common::guard(|| chess_movegen::fen::parse_fen(fen.as_bytes()).ok()).flatten() else { continue };
+            let mut eng = api.new_engine();
+            let mut toks: Vec<String> = Vec::new();
+            for mv in crate::posprops::candidate_moves(&view(&b0)) {
+                eng.set_board(b0);
+                toks.push(format!("set:{}", pos64(&view(&b0))));
+                let res = eng.make_move(mv);
+                let s = if res.is_valid { if res.is_three_fold_draw { "valid+3fold" } else { "valid" } } else { "invalid" };
+                toks.push(format!("mv:{}={s}", mv_str(mv)));
+                toks.push(format!("board={}", pos64(&view(&eng.board()))));
+            }
+            let line_s = toks.join(" ");
+            out.record("en-passant-from-every-file-through-the-plugin", true, format!("bot {line_s}"), line_s.clone());
         }
     }
     // the u8 counter: a long knight shuffle repeats one position hundreds of times (more than 256)
